@@ -253,4 +253,4 @@ class Exporter(object):
         tabs = self.tables()
         graph = 'mkgraph [%s] [%s] [%s] %d' % ('; '.join(nodes), '; '.join(succ), '; '.join(prev), nid[g.entry])
         self.nclean = len(clean)
-        return '(%d, %s, [%s], %s, [%s])' % (idx, tabs, '; '.join(str(self.name(x)) for x in sorted(clean)), graph, '; '.join(sol))
+        return '(%d, %d, %s, [%s], %s, [%s])' % (idx, 3 * self.an.visits + 40, tabs, '; '.join(str(self.name(x)) for x in sorted(clean)), graph, '; '.join(sol))
